@@ -10,7 +10,7 @@ CLAIMED = {
         level="exploration",
         design="DESIGN.md 4 (C04)",
         technique="deterministic simulation: seeded scheduler over the real writer goroutines, enumerated arrival permutations (n<=6) + empty-batch subsets, simulated output endpoint, independent re-parse oracle",
-        text="Every arrival order of batch numbers (exhaustive up to 6 batches, sampled to 12), every subset of empty batches (exhaustive up to 4), 1-4 formatting workers and seeded interleavings are run through the real FASTA/FASTQ/JSON/CSV writers and the real re-sequencing goroutine; the bytes received by a simulated endpoint are compared with the in-order concatenation and re-parsed by independent parsers (encoding/json, encoding/csv, a 20-line FASTA/FASTQ reader). Exploration, not proof: exhaustive only inside the named sub-spaces.",
+        text="Every arrival order of batch numbers (exhaustive up to 6 batches, sampled to 12), every subset of empty batches (exhaustive up to 4), 1-4 formatting workers and seeded interleavings are run through the real FASTA/FASTQ/JSON/CSV writers, the format-guessing WriteSequence entry point and the real re-sequencing goroutine, on streams the writer owns (closed once, after the last write) or does not own (flushed, never closed), plain or gzip; the bytes received by a simulated endpoint are compared with the in-order concatenation and re-parsed by independent parsers (encoding/json, encoding/csv, a 20-line FASTA/FASTQ reader). Exploration, not proof: exhaustive only inside the named sub-spaces.",
         note="Trusted: the instrumenter (adds scheduling points only), simrt sync replacements, Go's encoding/json and encoding/csv as reference parsers. Format*Batch is used as a pure function to obtain per-batch text (the property is about order and exactly-once, not about formatting).",
     ),
 }
@@ -20,7 +20,7 @@ CLAIMED["C18"] = dict(
     design="DESIGN.md 4 (C18)",
     technique="deterministic simulation with fault injection: simulated output endpoint failing at every byte offset / at Close, under the seeded scheduler, outcome classification fatal vs silent loss",
     text="A write fault (short count + sticky error) is injected at every absolute byte offset of a small output and at stratified offsets of outputs up to >64 KiB, and a Close fault, below the real bufio/pgzip stack of the real FASTA/FASTQ/JSON/CSV writers, for varied arrival orders, worker counts and seeded schedules; a run must end in a captured non-zero exit whenever the fault fired. Enumeration of the fault space on a fixed corpus, sampling beyond it.",
-    note="Trusted: SimWriteCloser as a model of a failing file (short write + error, error sticky; Close error after release). The command-level path (real main, /dev/full) is covered by the command stage of this check once built; until then the claim is about the writer layer the commands call.",
+    note="Trusted: SimWriteCloser as a model of a failing file (short write + error, error sticky; Close error after release). The command stage runs the real obiconvert / obicsv / obigrep mains with /dev/full as -o, as stdout and as --save-discarded; the simulated process ends when main returns, so a failure reported only after main has left is a violation.",
 )
 
 CLAIMED["C01"] = dict(
@@ -28,14 +28,14 @@ CLAIMED["C01"] = dict(
     design="DESIGN.md 4 (C01)",
     technique="deterministic simulation: simulated input endpoint (read sizes, zero reads, EOF-with-data), chunk-buffer size as a per-run knob swept over every cut position, seeded scheduler over chunk reader / parser workers / re-sequencer, generator ground truth + cross-configuration equality",
     text="Generated FASTA/FASTQ/GenBank/EMBL files whose records are the ground truth are read through the real chunk splitter, chunk parsers, Read* functions and (for the transport stage) the real codec detection and decompressors, with the read-buffer size swept over every cut position of a fixed corpus and sampled elsewhere, 1-4 parser workers racing on the chunk channel under a seeded scheduler and adversarial read sizes; delivered records (ordered by batch number) must equal the ground truth and the records of a one-chunk/one-worker reference configuration, batch numbers must be 0..n-1, and the run must terminate.",
-    note="Trusted: the generator's idea of a well-formed file (conservative shapes only), the instrumenter, simrt. The buffer-size knob replaces the 1 MiB / 128 MiB constants (DESIGN.md 3.3). stdin/pipe transport is not simulated (a C read(2) on a pipe is not durably blocked); the kseq path is reached from the command stage.",
+    note="Trusted: the generator's idea of a well-formed file (conservative shapes only), the instrumenter, simrt. The buffer-size knob replaces the 1 MiB / 128 MiB constants (DESIGN.md 3.3). A pipe is not simulated (a C read(2) on a pipe is not durably blocked); the stdin transport, i.e. the C kseq reader, is reached by redirecting a regular file on fd 0 of the simulated obiconvert main, and whole records are compared on every transport.",
 )
 CLAIMED["C17"] = dict(
     level="fault_enumeration",
     design="DESIGN.md 4 (C17)",
     technique="deterministic simulation with fault injection: truncation at every byte, bit flips, read error after k bytes on a simulated input endpoint under the real codec/sniffer/reader stack; outcome classification fatal vs silent acceptance",
     text="Every truncation point, one or all bit flips per byte and a read error after every k bytes are injected into gzip, bzip2, xz and zstd images of FASTA/FASTQ files (exhaustively on 8 small images, sampled on generated files of all four formats), under the real Buf / sniffer / Read* stack and a seeded scheduler; the run must end in a fatal, a crash or a returned error, or - for a bit flip only - deliver every record unchanged. Violations are split by whether the decompression library itself notices the damage.",
-    note="Trusted: SimReader fault model; the harness transcribes the 12-line format dispatch of ReadSequencesFromFile for the library stage. Third-party decoders that return a clean EOF on some truncations are recorded as known findings (decoder-silent classes).",
+    note="Trusted: SimReader fault model; the harness transcribes the 12-line format dispatch of ReadSequencesFromFile for the library stage. Third-party decoders that return a clean EOF on some truncations or flips are recorded as known findings (decoder-silent classes). The command stage adds truncated / flipped files through the sniffer, through an explicit --fasta/--fastq format and through fd 0 (kseq), and real read(2) errors on fd 0 (a directory, a reset socket).",
 )
 
 CLAIMED["C03"] = dict(
